@@ -1462,7 +1462,7 @@ struct TemplateCore {
 
             ++offset2; // The char after ]
 
-            if (id[offset2] != TagPatterns::VariableIndexPrefix) {
+            if ((offset2 >= length) || (id[offset2] != TagPatterns::VariableIndexPrefix)) {
                 break;
             }
 
